@@ -348,15 +348,21 @@ RespInfo(sp) ==
 (***************************************************************************)
 \* C14: every value reported for a listed sensor was decoded from bytes that were actually fetched
 NeedsBytes(e) == IF e.ty = "EnumBitmap22" THEN 2 ELSE Size(e.ty)
+WindowOf(sp, t, k) ==
+    LET e == Tables[t][k] IN
+    IF ~TabLast[t][k] \/ ~Has(sp, e.id) \/ NeedsBytes(e) = 0 THEN {}
+    ELSE IF Holding(sp, e.addr, NeedsBytes(e)) # {}
+            /\ (e.ty = "EnumBitmap22" => Holding(sp, e.addrL, 2) # {}) THEN {}
+    ELSE {"C14.Window:" \o e.id}
 JudgeWindow(sp) ==
     IF ~sp.modbus \/ ~sp.ok \/ sp.single THEN {}
-    ELSE LET tab == Tables[sp.tab] IN
-         UNION {LET e == tab[k] IN
-                IF ~TabLast[sp.tab][k] \/ ~Has(sp, e.id) \/ NeedsBytes(e) = 0 THEN {}
-                ELSE IF Holding(sp, e.addr, NeedsBytes(e)) # {}
-                        /\ (e.ty = "EnumBitmap22" => Holding(sp, e.addrL, 2) # {}) THEN {}
-                ELSE {"C14.Window:" \o e.id}
-                : k \in 1..Len(tab)}
+    ELSE LET tab == Tables[sp.tab]
+             ids == {tab[k].id : k \in 1..Len(tab)} IN
+         UNION {WindowOf(sp, sp.tab, k) : k \in 1..Len(tab)}
+         \* a value reported under an id that is no longer listed after the call (its block was refused in this very call)
+         \* is judged with the definition that was listed when the call was made
+         \cup (IF sp.tab0 = 0 THEN {}
+               ELSE UNION {IF Tables[sp.tab0][k].id \in ids THEN {} ELSE WindowOf(sp, sp.tab0, k) : k \in 1..Len(Tables[sp.tab0])})
 
 \* C15: keys of the result = ids of sensors() right after the call; success no later than the second call
 JudgeKeys(sp) ==
